@@ -7,7 +7,7 @@ set_option linter.unusedSectionVars false
 section structural
 variable {α : Type} [Field α] [LinearOrder α] [IsStrictOrderedRing α] [FloorRing α]
 
-theorem addBand_g (s : RState α) (name : List String) (init : Option (List (List α))) :
+theorem addBand_g (s : RState α) (name : List String) (init : Option (List (List (Option α)))) :
     (addBand s name init).1.g = s.g ∧ (addBand s name init).1.values = s.values := by
   unfold addBand
   split
@@ -26,53 +26,53 @@ theorem addColl_g (floor : α → Int) (s : RState α) (afo : List String) (T : 
   · exact ⟨rfl, rfl⟩
   · split <;> exact ⟨rfl, rfl⟩
 
-theorem step_g (floor : α → Int) (wr : α) (s : RState α) (c : Cmd α) : (step floor wr s c).1.g = s.g := by
+theorem step_g (floor : α → Int) (s : RState α) (c : Cmd α) : (step floor s c).1.g = s.g := by
   cases c with
   | band name init => exact (addBand_g s name init).1
   | add afo T => exact (addColl_g floor s afo T).1
   | compute => rfl
   | setNoData v => rfl
 
-theorem step_values (floor : α → Int) (wr : α) (s : RState α) (c : Cmd α) (h : c.isAdd = false) :
-    (step floor wr s c).1.values = s.values := by
+theorem step_values (floor : α → Int) (s : RState α) (c : Cmd α) (h : c.isAdd = false) :
+    (step floor s c).1.values = s.values := by
   cases c with
   | band name init => exact (addBand_g s name init).2
   | add afo T => simp [Cmd.isAdd] at h
   | compute => rfl
   | setNoData v => rfl
 
-theorem run_nil (floor : α → Int) (wr : α) (s : RState α) : run floor wr s [] = (s, []) := rfl
+theorem run_nil (floor : α → Int) (s : RState α) : run floor s [] = (s, []) := rfl
 
-theorem run_cons (floor : α → Int) (wr : α) (s : RState α) (c : Cmd α) (rest : List (Cmd α)) :
-    run floor wr s (c :: rest)
-      = ((run floor wr (step floor wr s c).1 rest).1, (step floor wr s c).2 :: (run floor wr (step floor wr s c).1 rest).2) := rfl
+theorem run_cons (floor : α → Int) (s : RState α) (c : Cmd α) (rest : List (Cmd α)) :
+    run floor s (c :: rest)
+      = ((run floor (step floor s c).1 rest).1, (step floor s c).2 :: (run floor (step floor s c).1 rest).2) := rfl
 
-theorem run_append (floor : α → Int) (wr : α) : ∀ (a b : List (Cmd α)) (s : RState α),
-    run floor wr s (a ++ b)
-      = ((run floor wr (run floor wr s a).1 b).1, (run floor wr s a).2 ++ (run floor wr (run floor wr s a).1 b).2) := by
+theorem run_append (floor : α → Int) : ∀ (a b : List (Cmd α)) (s : RState α),
+    run floor s (a ++ b)
+      = ((run floor (run floor s a).1 b).1, (run floor s a).2 ++ (run floor (run floor s a).1 b).2) := by
   intro a
   induction a with
   | nil => intro b s; simp [run_nil]
   | cons c rest ih => intro b s; simp only [List.cons_append, run_cons, ih]
 
-theorem run_g (floor : α → Int) (wr : α) : ∀ (cmds : List (Cmd α)) (s : RState α), (run floor wr s cmds).1.g = s.g := by
+theorem run_g (floor : α → Int) : ∀ (cmds : List (Cmd α)) (s : RState α), (run floor s cmds).1.g = s.g := by
   intro cmds
   induction cmds with
   | nil => intro s; rfl
   | cons c rest ih => intro s; rw [run_cons]; simp only; rw [ih, step_g]
 
-theorem run_values (floor : α → Int) (wr : α) : ∀ (cmds : List (Cmd α)) (s : RState α),
-    (∀ c ∈ cmds, c.isAdd = false) → (run floor wr s cmds).1.values = s.values := by
+theorem run_values (floor : α → Int) : ∀ (cmds : List (Cmd α)) (s : RState α),
+    (∀ c ∈ cmds, c.isAdd = false) → (run floor s cmds).1.values = s.values := by
   intro cmds
   induction cmds with
   | nil => intro s _; rfl
   | cons c rest ih =>
     intro s h
     rw [run_cons]; simp only
-    rw [ih _ (fun c' hc' => h c' (List.mem_cons_of_mem _ hc')), step_values _ _ _ _ (h c List.mem_cons_self)]
+    rw [ih _ (fun c' hc' => h c' (List.mem_cons_of_mem _ hc')), step_values _ _ _ (h c List.mem_cons_self)]
 
-theorem run_length (floor : α → Int) (wr : α) : ∀ (cmds : List (Cmd α)) (s : RState α),
-    (run floor wr s cmds).2.length = cmds.length := by
+theorem run_length (floor : α → Int) : ∀ (cmds : List (Cmd α)) (s : RState α),
+    (run floor s cmds).2.length = cmds.length := by
   intro cmds
   induction cmds with
   | nil => intro s; rfl
@@ -438,7 +438,7 @@ end add
 section compute
 variable {α : Type} [Field α] [LinearOrder α] [IsStrictOrderedRing α] [FloorRing α]
 
-theorem computeBand_name (wr : α) (V : Option (Vals α)) (b : Band α) : (computeBand wr V b).1.name = b.name := by
+theorem computeBand_name (wr : Option α) (V : Option (Vals α)) (b : Band α) : (computeBand wr V b).1.name = b.name := by
   unfold computeBand
   split
   · split
@@ -450,14 +450,14 @@ theorem computeBand_name (wr : α) (V : Option (Vals α)) (b : Band α) : (compu
 
 /-- a band `<feature>#<operator>…` whose feature is among the values and whose operator is one of the six: the grid is
     rewritten with the aggregates of that feature's cells, whatever the band held before -/
-theorem computeBand_ok (wr : α) (V : Vals α) (b : Band α) (af opn : String) (rest : List String) (op : Op)
+theorem computeBand_ok (wr : Option α) (V : Vals α) (b : Band α) (af opn : String) (rest : List String) (op : Op)
     (c : Cells (Option α)) (hn : b.name = af :: opn :: rest) (hl : V.lookup af = some c) (ho : opOf opn = some op) :
-    computeBand wr (some V) b = ({ b with grid := some (aggregates wr op c) }, none) := by
+    computeBand wr (some V) b = ({ b with grid := some (aggregatesN wr op c) }, none) := by
   unfold computeBand
   rw [hn]
   simp only [hl, ho]
 
-theorem computeAll_ok (wr : α) (V : Option (Vals α)) : ∀ bands : List (Band α),
+theorem computeAll_ok (wr : Option α) (V : Option (Vals α)) : ∀ bands : List (Band α),
     (∀ b ∈ bands, (computeBand wr V b).2 = none) →
     computeAll wr V bands = (bands.map (fun b => (computeBand wr V b).1), none) := by
   intro bands
@@ -473,47 +473,47 @@ theorem computeAll_ok (wr : α) (V : Option (Vals α)) : ∀ bands : List (Band 
     simp only [ih', List.map_cons]
 
 /-- the state reached by any sequence of calls `pre` on a new raster, then a well-formed `addCollectionToRaster` -/
-def afterAdd (g : Grid α) (nd wr : α) (pre : List (Cmd α)) (afo : List String) (T : List (Trk α)) : RState α :=
-  { (run Int.floor wr (initState g nd) pre).1 with values := some (valsOf g afo T) }
+def afterAdd (g : Grid α) (nd : Option α) (pre : List (Cmd α)) (afo : List String) (T : List (Trk α)) : RState α :=
+  { (run Int.floor (initState g nd) pre).1 with values := some (valsOf g afo T) }
 
 /-- Any calls `pre`, then a collection inside the extent whose tracks have every feature, then any calls `post` other than
     `addCollectionToRaster`, then `computeAggregates` with every band of the form `<feature>#<operator>`: the outcome
     list and the final state, explicitly. -/
-theorem session_core (g : Grid α) (hg : WF g) (nd wr : α) (pre post : List (Cmd α)) (afo : List String) (T : List (Trk α))
+theorem session_core (g : Grid α) (hg : WF g) (nd : Option α) (pre post : List (Cmd α)) (afo : List String) (T : List (Trk α))
     (hpost : ∀ c ∈ post, c.isAdd = false)
-    (hperm : afo.isPerm (afsOf (run Int.floor wr (initState g nd) pre).1.bands) = true)
+    (hperm : afo.isPerm (afsOf (run Int.floor (initState g nd) pre).1.bands) = true)
     (hfeat : ∀ t ∈ T, ∀ af ∈ afo, (featVals t af).isSome = true) (hin : ∀ t ∈ T, InExtent g t)
-    (hbands : ∀ b ∈ (run Int.floor wr (afterAdd g nd wr pre afo T) post).1.bands,
+    (hbands : ∀ b ∈ (run Int.floor (afterAdd g nd pre afo T) post).1.bands,
         ∃ af opn rest, b.name = af :: opn :: rest ∧ af ∈ afo ∧ (opOf opn).isSome = true) :
-    run Int.floor wr (initState g nd) (pre ++ [.add afo T] ++ post ++ [.compute])
-      = ({ (run Int.floor wr (afterAdd g nd wr pre afo T) post).1 with
-            bands := (run Int.floor wr (afterAdd g nd wr pre afo T) post).1.bands.map
-              (fun b => (computeBand wr (some (valsOf g afo T)) b).1) },
-         (run Int.floor wr (initState g nd) pre).2 ++ [none] ++ (run Int.floor wr (afterAdd g nd wr pre afo T) post).2 ++ [none]) := by
-  have hg1 : (run Int.floor wr (initState g nd) pre).1.g = g := run_g _ _ _ _
-  have hadd : addColl Int.floor (run Int.floor wr (initState g nd) pre).1 afo T = (afterAdd g nd wr pre afo T, none) := by
+    run Int.floor (initState g nd) (pre ++ [.add afo T] ++ post ++ [.compute])
+      = ({ (run Int.floor (afterAdd g nd pre afo T) post).1 with
+            bands := (run Int.floor (afterAdd g nd pre afo T) post).1.bands.map
+              (fun b => (computeBand (run Int.floor (afterAdd g nd pre afo T) post).1.noData (some (valsOf g afo T)) b).1) },
+         (run Int.floor (initState g nd) pre).2 ++ [none] ++ (run Int.floor (afterAdd g nd pre afo T) post).2 ++ [none]) := by
+  have hg1 : (run Int.floor (initState g nd) pre).1.g = g := run_g _ _ _
+  have hadd : addColl Int.floor (run Int.floor (initState g nd) pre).1 afo T = (afterAdd g nd pre afo T, none) := by
     rw [addColl_ok _ (by rw [hg1]; exact hg) afo T hperm hfeat (by rw [hg1]; exact hin)]
     unfold afterAdd
     simp only [hg1]
-  have hvals : (run Int.floor wr (afterAdd g nd wr pre afo T) post).1.values = some (valsOf g afo T) :=
-    run_values _ _ post _ hpost
-  have hall : ∀ b ∈ (run Int.floor wr (afterAdd g nd wr pre afo T) post).1.bands,
-      (computeBand wr (some (valsOf g afo T)) b).2 = none := by
+  have hvals : (run Int.floor (afterAdd g nd pre afo T) post).1.values = some (valsOf g afo T) :=
+    run_values _ post _ hpost
+  have hall : ∀ b ∈ (run Int.floor (afterAdd g nd pre afo T) post).1.bands,
+      (computeBand (run Int.floor (afterAdd g nd pre afo T) post).1.noData (some (valsOf g afo T)) b).2 = none := by
     intro b hb
     obtain ⟨af, opn, rest, hn, haf, hop⟩ := hbands b hb
     obtain ⟨op, hop⟩ := Option.isSome_iff_exists.1 hop
     obtain ⟨c, hl, _⟩ := (valsOf_spec g hg afo T hfeat hin af).2 haf
-    rw [computeBand_ok wr _ b af opn rest op c hn hl hop]
+    rw [computeBand_ok _ _ b af opn rest op c hn hl hop]
   rw [run_append, run_append, run_append]
-  simp only [run_cons, run_nil, step, hadd, hvals, computeAll_ok wr _ _ hall, List.append_assoc]
+  simp only [run_cons, run_nil, step, hadd, hvals, computeAll_ok _ _ _ hall, List.append_assoc]
 
 /-- the same run seen from the start: the state before the last `computeAggregates` is the one reached from `afterAdd` -/
-theorem run_through_add (g : Grid α) (hg : WF g) (nd wr : α) (pre post : List (Cmd α)) (afo : List String) (T : List (Trk α))
-    (hperm : afo.isPerm (afsOf (run Int.floor wr (initState g nd) pre).1.bands) = true)
+theorem run_through_add (g : Grid α) (hg : WF g) (nd : Option α) (pre post : List (Cmd α)) (afo : List String) (T : List (Trk α))
+    (hperm : afo.isPerm (afsOf (run Int.floor (initState g nd) pre).1.bands) = true)
     (hfeat : ∀ t ∈ T, ∀ af ∈ afo, (featVals t af).isSome = true) (hin : ∀ t ∈ T, InExtent g t) :
-    (run Int.floor wr (initState g nd) (pre ++ [.add afo T] ++ post)).1 = (run Int.floor wr (afterAdd g nd wr pre afo T) post).1 := by
-  have hg1 : (run Int.floor wr (initState g nd) pre).1.g = g := run_g _ _ _ _
-  have hadd : addColl Int.floor (run Int.floor wr (initState g nd) pre).1 afo T = (afterAdd g nd wr pre afo T, none) := by
+    (run Int.floor (initState g nd) (pre ++ [.add afo T] ++ post)).1 = (run Int.floor (afterAdd g nd pre afo T) post).1 := by
+  have hg1 : (run Int.floor (initState g nd) pre).1.g = g := run_g _ _ _
+  have hadd : addColl Int.floor (run Int.floor (initState g nd) pre).1 afo T = (afterAdd g nd pre afo T, none) := by
     rw [addColl_ok _ (by rw [hg1]; exact hg) afo T hperm hfeat (by rw [hg1]; exact hin)]
     unfold afterAdd
     simp only [hg1]
@@ -521,9 +521,9 @@ theorem run_through_add (g : Grid α) (hg : WF g) (nd wr : α) (pre post : List 
   simp only [run_cons, run_nil, step, hadd]
 
 /-- `addAFMap` of new, distinct, non-empty names without grid: all accepted, appended in order -/
-theorem run_bands (floor : α → Int) (wr : α) : ∀ (names : List (List String)) (s : RState α),
+theorem run_bands (floor : α → Int) : ∀ (names : List (List String)) (s : RState α),
     names.Nodup → (∀ n ∈ names, n ≠ [""] ∧ ∀ b ∈ s.bands, b.name ≠ n) →
-    run floor wr s (names.map (fun n => Cmd.band n none))
+    run floor s (names.map (fun n => Cmd.band n none))
       = ({ s with bands := s.bands ++ names.map (fun n => (⟨n, none⟩ : Band α)) }, names.map (fun _ => none)) := by
   intro names
   induction names with
